@@ -16,7 +16,7 @@ import (
 //	{"do":"sub","c":id,"buf":n}            subscribe (channel gets the harness id c)
 //	{"do":"pub","id":n,"kind":K,"n":k,"only":c}   start publish call n on its own goroutine; values id*10+1..k
 //	{"do":"waitret","id":n}                wait until call n has returned, then drain every subscription without blocking, then check
-//	{"do":"recv","c":id}                   receive one value from subscription c (waits up to 400ms)
+//	{"do":"recv","c":id}                   receive one value from subscription c (waits up to 1.5s)
 //	{"do":"unsub","c":id} {"do":"unsuball"}   (c = 0: nil channel, c = 99: a channel that was never subscribed)
 //	{"do":"quiesce"}                       wait until every goroutine of the package is parked or gone
 //	{"do":"sleep","ms":n}
@@ -165,7 +165,7 @@ func drivePubSub(plan []M, out *Out, _ []string) {
 					} else {
 						w.log(M{"ev": "recv_closed", "c": c})
 					}
-				case <-time.After(400 * time.Millisecond):
+				case <-time.After(1500 * time.Millisecond):
 					w.log(M{"ev": "recv_none", "c": c})
 				}
 			case "unsub_async":
